@@ -55,11 +55,17 @@ structure SplitOk (S : Splitter) (df lo hi : Nat) : Prop where
   /-- the ranges the diff subdivides into (`genTupleRanges`) are these parts -/
   gen : genTupleRanges lo hi df = (List.range df).map (S.child lo hi df)
 
-/-- the hypothesis of termination (F-ldiff-width): every range that has to be divided (more than
-`thr` elements) splits properly, down to the depth budget. -/
+/-- the division condition of `addElement` / `makeBottomRanges` with fix-width: more than `thr`
+elements AND at least `df` hash values -/
+abbrev Div (S : Splitter) (p : Params) (sl : List Elem) (lo hi : Nat) : Prop :=
+  (slRange sl lo hi).length > p.thr ∧ S.wide lo hi p.df = true
+
+/-- every range that is divided splits properly, and the depth budget is not exhausted. Since
+fix-width this holds for ALL contents as soon as the splitter is good (`widthOk_of_narrowBy`):
+only ranges with at least `df` values are divided. -/
 def WidthOk (S : Splitter) (p : Params) (sl : List Elem) : Nat → Nat → Nat → Prop
-  | 0, lo, hi => (slRange sl lo hi).length ≤ p.thr
-  | f + 1, lo, hi => (slRange sl lo hi).length ≤ p.thr ∨
+  | 0, lo, hi => ¬ Div S p sl lo hi
+  | f + 1, lo, hi => ¬ Div S p sl lo hi ∨
       (SplitOk S p.df lo hi ∧
         ∀ i, i < p.df → WidthOk S p sl f (S.child lo hi p.df i).1 (S.child lo hi p.df i).2)
 
@@ -73,12 +79,15 @@ theorem widthOk_mono (S : Splitter) (p : Params) (sl sl' : List Elem)
     ∀ fuel lo hi, WidthOk S p sl fuel lo hi → WidthOk S p sl' fuel lo hi := by
   intro fuel
   induction fuel with
-  | zero => intro lo hi hw; simp only [WidthOk] at hw ⊢; have := hle lo hi; omega
+  | zero =>
+    intro lo hi hw
+    simp only [WidthOk] at hw ⊢
+    intro h; have := hle lo hi; exact hw ⟨by omega, h.2⟩
   | succ f ih =>
     intro lo hi hw
     simp only [WidthOk] at hw ⊢
     rcases hw with hw | hw
-    · left; have := hle lo hi; omega
+    · left; intro h; have := hle lo hi; exact hw ⟨by omega, h.2⟩
     · right; exact ⟨hw.1, fun i hi' => ih _ _ (hw.2 i hi')⟩
 
 /-! ### unfolding lemmas, stated once (all by `rfl`) -/
@@ -86,20 +95,22 @@ section eqs
 variable {D : Type} (A : DigAlg D) (S : Splitter) (p : Params) (sl : List Elem)
 
 theorem build_zero (lo hi : Nat) :
-    build A S p sl 0 lo hi = if (slRange sl lo hi).length > p.thr then .stuck else mkLeaf A sl lo hi := rfl
+    build A S p sl 0 lo hi =
+      if (slRange sl lo hi).length > p.thr ∧ S.wide lo hi p.df = true then .stuck else mkLeaf A sl lo hi := rfl
 
 theorem build_succ (f lo hi : Nat) :
     build A S p sl (f + 1) lo hi =
-      if (slRange sl lo hi).length > p.thr then
+      if (slRange sl lo hi).length > p.thr ∧ S.wide lo hi p.df = true then
         .div (slRange sl lo hi).length (kidsHash A (buildKids A S p sl f lo hi)) (buildKids A S p sl f lo hi)
       else mkLeaf A sl lo hi := rfl
 
 theorem addEl_zero_leaf (h c lo hi : Nat) (d : Option D) :
-    addEl A S p sl h 0 (.leaf c d) lo hi = if c + 1 > p.thr then .stuck else mkLeaf A sl lo hi := rfl
+    addEl A S p sl h 0 (.leaf c d) lo hi =
+      if c + 1 > p.thr ∧ S.wide lo hi p.df = true then .stuck else mkLeaf A sl lo hi := rfl
 
 theorem addEl_succ_leaf (h f c lo hi : Nat) (d : Option D) :
     addEl A S p sl h (f + 1) (.leaf c d) lo hi =
-      if c + 1 > p.thr then
+      if c + 1 > p.thr ∧ S.wide lo hi p.df = true then
         .div (c + 1) (kidsHash A (buildKids A S p sl f lo hi)) (buildKids A S p sl f lo hi)
       else mkLeaf A sl lo hi := rfl
 
@@ -192,11 +203,11 @@ theorem build_out {D} (A : DigAlg D) (S : Splitter) (p : Params) (sl sl' : List 
     rw [build_succ, build_succ, hout lo hi hx]
     unfold mkLeaf
     rw [hout lo hi hx]
-    by_cases hc : (slRange sl lo hi).length > p.thr
+    by_cases hc : (slRange sl lo hi).length > p.thr ∧ S.wide lo hi p.df = true
     · have hw' : SplitOk S p.df lo hi ∧ ∀ i, i < p.df →
           WidthOk S p sl' f (S.child lo hi p.df i).1 (S.child lo hi p.df i).2 := by
         rcases hw with hw | hw
-        · rw [hout lo hi hx] at hw; omega
+        · simp only [Div] at hw; rw [hout lo hi hx] at hw; exact absurd hc hw
         · exact hw
       have hl : buildKids A S p sl' f lo hi = buildKids A S p sl f lo hi := by
         unfold buildKids
@@ -245,11 +256,12 @@ theorem addEl_build {D} (A : DigAlg D) (S : Splitter) (p : Params) (sl sl' : Lis
   | zero =>
     intro lo hi h1 h2 hw
     have hl := hlen lo hi h1 h2
-    simp only [WidthOk] at hw
-    have hc : ¬ (slRange sl lo hi).length > p.thr := by omega
-    have hc' : ¬ (slRange sl' lo hi).length > p.thr := by omega
-    have h3 : ¬ (slRange sl lo hi).length + 1 > p.thr := by omega
-    rw [build_zero, build_zero, if_neg hc, if_neg hc']
+    simp only [WidthOk, Div] at hw
+    have hc : ¬ ((slRange sl lo hi).length > p.thr ∧ S.wide lo hi p.df = true) :=
+      fun h => hw ⟨by omega, h.2⟩
+    have h3 : ¬ ((slRange sl lo hi).length + 1 > p.thr ∧ S.wide lo hi p.df = true) :=
+      fun h => hw ⟨by omega, h.2⟩
+    rw [build_zero, build_zero, if_neg hc, if_neg hw]
     unfold mkLeaf
     rw [addEl_zero_leaf, if_neg h3]
     rfl
@@ -257,12 +269,12 @@ theorem addEl_build {D} (A : DigAlg D) (S : Splitter) (p : Params) (sl sl' : Lis
     intro lo hi h1 h2 hw
     have hl := hlen lo hi h1 h2
     rw [build_succ, build_succ]
-    by_cases hc : (slRange sl lo hi).length > p.thr
-    · have hc' : (slRange sl' lo hi).length > p.thr := by omega
+    by_cases hc : (slRange sl lo hi).length > p.thr ∧ S.wide lo hi p.df = true
+    · have hc' : (slRange sl' lo hi).length > p.thr ∧ S.wide lo hi p.df = true := ⟨by omega, hc.2⟩
       have hw' : SplitOk S p.df lo hi ∧ ∀ i, i < p.df →
           WidthOk S p sl' f (S.child lo hi p.df i).1 (S.child lo hi p.df i).2 := by
         rcases hw with hw | hw
-        · omega
+        · exact absurd hc' hw
         · exact hw
       obtain ⟨i, hb, hi', hin, hothers⟩ := hw'.1.bucket x h1 h2
       rw [if_pos hc, if_pos hc', addEl_succ_div, hb]
@@ -270,12 +282,13 @@ theorem addEl_build {D} (A : DigAlg D) (S : Splitter) (p : Params) (sl sl' : Lis
       rw [kid_buildKids A S p sl f lo hi i hi', ih _ _ hin.1 hin.2 (hw'.2 i hi'),
         set_buildKids A S p sl sl' x hout f lo hi i hw'.2 hothers, hl]
     · rw [if_neg hc]
-      by_cases hc' : (slRange sl' lo hi).length > p.thr
-      · have h3 : (slRange sl lo hi).length + 1 > p.thr := by omega
+      by_cases hc' : (slRange sl' lo hi).length > p.thr ∧ S.wide lo hi p.df = true
+      · have h3 : (slRange sl lo hi).length + 1 > p.thr ∧ S.wide lo hi p.df = true := ⟨by omega, hc'.2⟩
         rw [if_pos hc']
         unfold mkLeaf
         rw [addEl_succ_leaf, if_pos h3, hl]
-      · have h3 : ¬ (slRange sl lo hi).length + 1 > p.thr := by omega
+      · have h3 : ¬ ((slRange sl lo hi).length + 1 > p.thr ∧ S.wide lo hi p.df = true) :=
+          fun h => hc' ⟨by omega, h.2⟩
         rw [if_neg hc']
         unfold mkLeaf
         rw [addEl_succ_leaf, if_neg h3]
@@ -291,10 +304,10 @@ theorem updEl_build {D} (A : DigAlg D) (S : Splitter) (p : Params) (sl sl' : Lis
   | zero =>
     intro lo hi h1 h2 hw
     have hl := hlen lo hi
-    simp only [WidthOk] at hw
-    have hc : ¬ (slRange sl lo hi).length > p.thr := by omega
-    have hc' : ¬ (slRange sl' lo hi).length > p.thr := by omega
-    rw [build_zero, build_zero, if_neg hc, if_neg hc']
+    simp only [WidthOk, Div] at hw
+    have hc : ¬ ((slRange sl lo hi).length > p.thr ∧ S.wide lo hi p.df = true) :=
+      fun h => hw ⟨by omega, h.2⟩
+    rw [build_zero, build_zero, if_neg hc, if_neg hw]
     unfold mkLeaf
     rw [updEl_zero_leaf]
     rfl
@@ -302,19 +315,20 @@ theorem updEl_build {D} (A : DigAlg D) (S : Splitter) (p : Params) (sl sl' : Lis
     intro lo hi h1 h2 hw
     have hl := hlen lo hi
     rw [build_succ, build_succ]
-    by_cases hc : (slRange sl lo hi).length > p.thr
-    · have hc' : (slRange sl' lo hi).length > p.thr := by omega
+    by_cases hc : (slRange sl lo hi).length > p.thr ∧ S.wide lo hi p.df = true
+    · have hc' : (slRange sl' lo hi).length > p.thr ∧ S.wide lo hi p.df = true := ⟨by omega, hc.2⟩
       have hw' : SplitOk S p.df lo hi ∧ ∀ i, i < p.df →
           WidthOk S p sl' f (S.child lo hi p.df i).1 (S.child lo hi p.df i).2 := by
         rcases hw with hw | hw
-        · omega
+        · exact absurd hc' hw
         · exact hw
       obtain ⟨i, hb, hi', hin, hothers⟩ := hw'.1.bucket x h1 h2
       rw [if_pos hc, if_pos hc', updEl_succ_div, hb]
       simp only []
       rw [kid_buildKids A S p sl f lo hi i hi', ih _ _ hin.1 hin.2 (hw'.2 i hi'),
         set_buildKids A S p sl sl' x hout f lo hi i hw'.2 hothers, hl]
-    · have hc' : ¬ (slRange sl' lo hi).length > p.thr := by omega
+    · have hc' : ¬ ((slRange sl' lo hi).length > p.thr ∧ S.wide lo hi p.df = true) :=
+        fun h => hc ⟨by omega, h.2⟩
       rw [if_neg hc, if_neg hc']
       unfold mkLeaf
       rw [updEl_succ_leaf]
@@ -351,39 +365,40 @@ theorem rmEl_build {D} (A : DigAlg D) (S : Splitter) (p : Params) (sl sl' : List
     (hle : ∀ a b, (slRange sl' a b).length ≤ (slRange sl a b).length) :
     ∀ fuel lo hi, lo ≤ x → x ≤ hi → WidthOk S p sl fuel lo hi →
       rmEl A S p sl' x fuel (build A S p sl fuel lo hi) lo hi
-        = (build A S p sl' fuel lo hi, decide ((slRange sl' lo hi).length ≤ p.thr)) := by
+        = (build A S p sl' fuel lo hi,
+           decide (¬ ((slRange sl' lo hi).length > p.thr ∧ S.wide lo hi p.df = true))) := by
   intro fuel
   induction fuel with
   | zero =>
     intro lo hi h1 h2 hw
     have hl := hlen lo hi h1 h2
-    simp only [WidthOk] at hw
-    have hc : ¬ (slRange sl lo hi).length > p.thr := by omega
-    have hc' : ¬ (slRange sl' lo hi).length > p.thr := by omega
-    have hd : (slRange sl' lo hi).length ≤ p.thr := by omega
-    rw [build_zero, build_zero, if_neg hc, if_neg hc']
+    simp only [WidthOk, Div] at hw
+    have hc' : ¬ ((slRange sl' lo hi).length > p.thr ∧ S.wide lo hi p.df = true) :=
+      fun h => hw ⟨by omega, h.2⟩
+    rw [build_zero, build_zero, if_neg hw, if_neg hc']
     unfold mkLeaf
     rw [rmEl_zero_leaf]
-    simp [mkLeaf, hd]
+    simp [mkLeaf, hc']
   | succ f ih =>
     intro lo hi h1 h2 hw
     have hl := hlen lo hi h1 h2
     rw [build_succ, build_succ]
-    by_cases hc : (slRange sl lo hi).length > p.thr
+    by_cases hc : (slRange sl lo hi).length > p.thr ∧ S.wide lo hi p.df = true
     · have hw' : SplitOk S p.df lo hi ∧ ∀ i, i < p.df →
           WidthOk S p sl f (S.child lo hi p.df i).1 (S.child lo hi p.df i).2 := by
         rcases hw with hw | hw
-        · omega
+        · exact absurd hc hw
         · exact hw
       obtain ⟨i, hb, hi', hin, hothers⟩ := hw'.1.bucket x h1 h2
       rw [if_pos hc, rmEl_succ_div, hb]
       simp only []
       rw [kid_buildKids A S p sl f lo hi i hi', ih _ _ hin.1 hin.2 (hw'.2 i hi')]
-      by_cases hc' : (slRange sl' lo hi).length > p.thr
+      by_cases hc' : (slRange sl' lo hi).length > p.thr ∧ S.wide lo hi p.df = true
       · -- still divided: no merge
-        have hcond : (decide ((slRange sl' (S.child lo hi p.df i).1 (S.child lo hi p.df i).2).length ≤ p.thr)
+        have hcond : (decide (¬ ((slRange sl' (S.child lo hi p.df i).1 (S.child lo hi p.df i).2).length > p.thr ∧
+              S.wide (S.child lo hi p.df i).1 (S.child lo hi p.df i).2 p.df = true))
             && decide ((slRange sl lo hi).length - 1 ≤ p.thr)) = false := by
-          have : ¬ ((slRange sl lo hi).length - 1 ≤ p.thr) := by omega
+          have : ¬ ((slRange sl lo hi).length - 1 ≤ p.thr) := by have := hc'.1; omega
           simp [this]
         rw [hcond, if_pos hc']
         simp only [Bool.false_eq_true, if_false]
@@ -392,26 +407,31 @@ theorem rmEl_build {D} (A : DigAlg D) (S : Splitter) (p : Params) (sl sl' : List
           intro j hj
           exact widthOk_mono S p sl sl' hle f _ _ (hw'.2 j hj)
         rw [set_buildKids A S p sl sl' x hout f lo hi i hws hothers]
-        have hd : ¬ ((slRange sl' lo hi).length ≤ p.thr) := by omega
         have hcnt : (slRange sl lo hi).length - 1 = (slRange sl' lo hi).length := by omega
-        simp [hd, hcnt]
-      · -- dropped to the threshold: merged
+        simp [hc', hcnt]
+      · -- dropped to the threshold: merged (the range is wide, so it is the count that dropped)
         have hsub := hw'.1.sub i hi'
         have hm := slRange_len_mono sl' _ _ lo hi hsub.1 hsub.2
-        have hcond : (decide ((slRange sl' (S.child lo hi p.df i).1 (S.child lo hi p.df i).2).length ≤ p.thr)
+        have hcnt' : (slRange sl' lo hi).length ≤ p.thr := by
+          by_cases h : (slRange sl' lo hi).length > p.thr
+          · exact absurd ⟨h, hc.2⟩ hc'
+          · omega
+        have hcond : (decide (¬ ((slRange sl' (S.child lo hi p.df i).1 (S.child lo hi p.df i).2).length > p.thr ∧
+              S.wide (S.child lo hi p.df i).1 (S.child lo hi p.df i).2 p.df = true))
             && decide ((slRange sl lo hi).length - 1 ≤ p.thr)) = true := by
-          have h1' : (slRange sl' (S.child lo hi p.df i).1 (S.child lo hi p.df i).2).length ≤ p.thr := by omega
+          have h1' : ¬ ((slRange sl' (S.child lo hi p.df i).1 (S.child lo hi p.df i).2).length > p.thr ∧
+              S.wide (S.child lo hi p.df i).1 (S.child lo hi p.df i).2 p.df = true) := by
+            intro h; have := h.1; omega
           have h2' : (slRange sl lo hi).length - 1 ≤ p.thr := by omega
           simp [h1', h2']
         rw [hcond, if_neg hc']
-        have hd : (slRange sl' lo hi).length ≤ p.thr := by omega
-        simp [hd]
-    · have hc' : ¬ (slRange sl' lo hi).length > p.thr := by omega
-      have hd : (slRange sl' lo hi).length ≤ p.thr := by omega
+        simp [hc']
+    · have hc' : ¬ ((slRange sl' lo hi).length > p.thr ∧ S.wide lo hi p.df = true) :=
+        fun h => hc ⟨by omega, h.2⟩
       rw [if_neg hc, if_neg hc']
       unfold mkLeaf
       rw [rmEl_succ_leaf]
-      simp [mkLeaf, hd]
+      simp [mkLeaf, hc']
 
 /-! ### skip-list facts used by the history induction -/
 
@@ -573,6 +593,42 @@ theorem sorted_ext (l₁ l₂ : List Elem) (s₁ : Sorted l₁) (s₂ : Sorted l
 def TopOk (S : Splitter) (p : Params) (sl : List Elem) : Prop :=
   SplitOk S p.df 0 (M - 1) ∧
     ∀ i, i < p.df → WidthOk S p sl depthFuel (S.child 0 (M - 1) p.df i).1 (S.child 0 (M - 1) p.df i).2
+
+/-! ### the width/depth hypothesis discharged for all contents (fix-width) -/
+
+/-- contents-free: after at most `f` more levels every range is too narrow to be divided, and
+every range that can be divided splits properly -/
+def NarrowBy (S : Splitter) (df : Nat) : Nat → Nat → Nat → Prop
+  | 0, lo, hi => S.wide lo hi df = false
+  | f + 1, lo, hi => S.wide lo hi df = false ∨
+      (SplitOk S df lo hi ∧ ∀ i, i < df → NarrowBy S df f (S.child lo hi df i).1 (S.child lo hi df i).2)
+
+/-- **since fix-width the width hypothesis holds for ALL contents** -/
+theorem widthOk_of_narrowBy (S : Splitter) (p : Params) (sl : List Elem) :
+    ∀ f lo hi, NarrowBy S p.df f lo hi → WidthOk S p sl f lo hi := by
+  intro f
+  induction f with
+  | zero =>
+    intro lo hi h
+    simp only [NarrowBy] at h
+    simp only [WidthOk, Div]
+    intro hd; rw [h] at hd; exact absurd hd.2 (by simp)
+  | succ f ih =>
+    intro lo hi h
+    simp only [NarrowBy] at h
+    simp only [WidthOk, Div]
+    rcases h with h | h
+    · left; intro hd; rw [h] at hd; exact absurd hd.2 (by simp)
+    · right; exact ⟨h.1, fun i hi' => ih _ _ (h.2 i hi')⟩
+
+/-- a good splitter: the top range splits properly and its parts are `NarrowBy depthFuel` -/
+def SplitterOk (S : Splitter) (df : Nat) : Prop :=
+  SplitOk S df 0 (M - 1) ∧
+    ∀ i, i < df → NarrowBy S df depthFuel (S.child 0 (M - 1) df i).1 (S.child 0 (M - 1) df i).2
+
+theorem topOk_of_splitterOk (S : Splitter) (p : Params) (sl : List Elem) (h : SplitterOk S p.df) :
+    TopOk S p sl :=
+  ⟨h.1, fun i hi' => widthOk_of_narrowBy S p sl depthFuel _ _ (h.2 i hi')⟩
 
 theorem top_step {D} (A : DigAlg D) (S : Splitter) (p : Params) (sl sl' : List Elem) (x : Nat)
     (dc : Nat → Nat) (f : Tree D → Nat → Nat → Tree D)
